@@ -241,12 +241,41 @@ var fileNames = []string{"a.yang", "a@2020-01-01.yang", "a@2021-06-30.yang", "ab
 type FileInput struct {
 	Dirs    [][]string `json:"dirs"`    // file names present in ".", path dir 1, path dir 2
 	Request string     `json:"request"` // name handed to Modules.Read
+	// Stem: the module name that stands where the file names say "a" ("" = a): the same layouts with
+	// module names that contain a dot, a dash, an underscore, or are written in upper case.
+	Stem string `json:"stem,omitempty"`
 }
 
-func fileContent(dir int, name string) string {
-	mod := "a"
-	if strings.HasPrefix(name, "ab") {
-		mod = "ab"
+var fileStems = []string{"", "a.b", "a-b", "a_", "A", "a.yang.b"}
+
+// actual maps a canonical name (file name or request) to the one used on disk.
+func (in FileInput) actual(fn string) string {
+	switch {
+	case in.Stem == "":
+		return fn
+	case strings.HasPrefix(fn, "xa"):
+		return "x" + in.Stem + fn[2:]
+	}
+	return in.Stem + fn[1:]
+}
+
+func (in FileInput) actualDirs() [][]string {
+	out := make([][]string, len(in.Dirs))
+	for i, d := range in.Dirs {
+		for _, fn := range d {
+			out[i] = append(out[i], in.actual(fn))
+		}
+	}
+	return out
+}
+
+func fileContent(dir int, name, stem string) string {
+	if stem == "" {
+		stem = "a"
+	}
+	mod := stem
+	if strings.HasPrefix(name, stem+"b") {
+		mod = stem + "b"
 	}
 	return fmt.Sprintf(`module %s { namespace "urn:%s"; prefix %s; description "d%d/%s"; }`, mod, mod, mod, dir, name)
 }
@@ -314,7 +343,7 @@ func (e *fileEnv) set(in FileInput) {
 		want := map[string]bool{}
 		if di < len(in.Dirs) {
 			for _, fn := range in.Dirs[di] {
-				want[fn] = true
+				want[in.actual(fn)] = true
 			}
 		}
 		ents, _ := os.ReadDir(d)
@@ -325,7 +354,7 @@ func (e *fileEnv) set(in FileInput) {
 			delete(want, en.Name())
 		}
 		for fn := range want {
-			os.WriteFile(filepath.Join(d, fn), []byte(fileContent(di, fn)), 0o644)
+			os.WriteFile(filepath.Join(d, fn), []byte(fileContent(di, fn, in.Stem)), 0o644)
 		}
 	}
 }
@@ -343,8 +372,8 @@ func checkFile(e *fileEnv, in FileInput) *fail {
 		}
 		ms := yang.NewModules()
 		ms.AddPath(e.dirs[1], e.dirs[2])
-		err := ms.Read(in.Request)
-		want := choose(in.Dirs, in.Request)
+		err := ms.Read(in.actual(in.Request))
+		want := choose(in.actualDirs(), in.actual(in.Request))
 		got := ""
 		if err == nil {
 			for _, m := range ms.Modules {
@@ -722,27 +751,34 @@ func run(c *core.Ctx) {
 						return
 					}
 					dirs := [][]string{subsets(cwdNames, m0), subsets(names, m1), subsets(names, m2)}
-					for _, req := range []string{"a", "ab", "a@2020-01-01"} {
-						in := FileInput{Dirs: dirs, Request: req}
-						caseNo, run := c.Begin()
-						if c.Skip(caseNo, run, Input{File: &in}) {
-							continue
+					for ri, req := range []string{"a", "ab", "a@2020-01-01"} {
+						// every layout with the plain names; the other module-name classes take turns
+						stems := []string{"", fileStems[1+(m1+g+ri)%(len(fileStems)-1)]}
+						if c.Tier == "thorough" {
+							stems = fileStems
 						}
-						c.Exec()
-						c.Validate()
-						c.Edge(1)
-						c.StateN(1)
-						if len(dirs[1])+len(dirs[2]) > 1 {
-							c.NontrivialN(1)
-						}
-						cnt++
-						if f := checkFile(e, in); f != nil {
-							report(caseNo, Input{File: &in}, f)
-						} else {
-							c.Outcome("chooser-as-required")
-							if cnt%9000 == 500 {
-								b, _ := json.Marshal(Input{File: &in})
-								c.Sample(string(b))
+						for _, stem := range stems {
+							in := FileInput{Dirs: dirs, Request: req, Stem: stem}
+							caseNo, run := c.Begin()
+							if c.Skip(caseNo, run, Input{File: &in}) {
+								continue
+							}
+							c.Exec()
+							c.Validate()
+							c.Edge(1)
+							c.StateN(1)
+							if len(dirs[1])+len(dirs[2]) > 1 {
+								c.NontrivialN(1)
+							}
+							cnt++
+							if f := checkFile(e, in); f != nil {
+								report(caseNo, Input{File: &in}, f)
+							} else {
+								c.Outcome("chooser-as-required")
+								if cnt%9000 == 500 {
+									b, _ := json.Marshal(Input{File: &in})
+									c.Sample(string(b))
+								}
 							}
 						}
 					}
